@@ -1,5 +1,7 @@
 """C18 implementation side.  One script, three modes (stdin JSON):
 
+  steps also: ["op", kind, space_index, params, "single"] (precision), ["blocked", [i, j]] (block-diagonal
+  BlockedOperator of earlier operators), ["iface", i] (the (expansion_order, ncrit) the FMM backend of operator i was built with)
   {"mode": "replay", "histories": [[step, ...], ...]}
       replay every history, one after the other, in THIS process (the process accumulates state on purpose; every history
       starts by resetting the global parameters to their defaults, which is itself an API-level step); every observation
@@ -68,19 +70,42 @@ def new_space(kind):
     return api.function_space(g, "P", 1) if kind == "P1" else api.function_space(g, "DP", 0)
 
 
-def make_op(kind, space, params):
+def make_op(kind, space, params, precision=None):
     L = api.operators.boundary.laplace
+    kw = {"parameters": params}
+    if precision is not None:
+        kw["precision"] = precision
     if kind == "KDense":
-        return L.single_layer(space, space, space, parameters=params)
+        return L.single_layer(space, space, space, **kw)
+    if kind == "KSingular":
+        return L.single_layer(space, space, space, assembler="only_singular_part", **kw)
     if kind == "KSparse":
-        return api.operators.boundary.sparse.identity(space, space, space, parameters=params)
+        return api.operators.boundary.sparse.identity(space, space, space, **kw)
     if kind == "KFmm":
-        return L.single_layer(space, space, space, assembler="fmm", parameters=params)
+        return L.single_layer(space, space, space, assembler="fmm", **kw)
     if kind == "KPotential":
-        return api.operators.potential.laplace.single_layer(space, POINTS, parameters=params)
+        return api.operators.potential.laplace.single_layer(space, POINTS, **kw)
     if kind == "KFmmPotential":
-        return api.operators.potential.laplace.single_layer(space, POINTS, assembler="fmm", parameters=params)
+        return api.operators.potential.laplace.single_layer(space, POINTS, assembler="fmm", **kw)
     raise ValueError(kind)
+
+
+def find_interface(fn):
+    """The ExafmmInterface captured by an FMM evaluator closure."""
+    for cell in (getattr(fn, "__closure__", None) or ()):
+        try:
+            v = cell.cell_contents
+        except ValueError:
+            continue
+        if hasattr(v, "_fmm") and hasattr(v, "number_of_source_points"):
+            return v
+    return None
+
+
+def interface_of(op, kind):
+    if kind == "KFmm":
+        return find_interface(op.weak_form()._evaluator._evaluator)
+    return find_interface(op._evaluator._implementation._evaluator)
 
 
 def dense_of(discrete):
@@ -91,7 +116,11 @@ def dense_of(discrete):
         return np.asarray(discrete @ np.eye(n))
 
 
-def observe(what, op, space):
+def observe(what, op, space, kind=None):
+    if what == "iface":
+        it = interface_of(op, kind)
+        # the (expansion_order, ncrit) the backend was constructed with (the stand-in records its arguments)
+        return np.array([float(x) for x in it._fmm.args[:2]])
     if what == "weak":
         return dense_of(op.weak_form())
     if what == "strong":
@@ -123,8 +152,14 @@ def replay(histories):
                     reset_globals()
                 elif tag == "space":
                     spaces.append((new_space(st[1]), st[1]))
+                elif tag == "blocked":
+                    b = api.BlockedOperator(len(st[1]), len(st[1]))
+                    for k, i in enumerate(st[1]):
+                        b[k, k] = ops[i]["op"]
+                    ops.append({"op": b, "kind": "Blocked", "space": ops[st[1][0]]["space"], "pid": 0})
                 elif tag == "op":
-                    _, kind, sidx, par = st
+                    kind, sidx, par = st[1], st[2], st[3]
+                    prec = st[4] if len(st) > 4 else None
                     if par is None:
                         pid, pobj = 0, None
                     elif isinstance(par, int):
@@ -133,17 +168,17 @@ def replay(histories):
                         pobj = new_params(par)
                         pobjs.append(pobj)
                         pid = len(pobjs) - 1
-                    ops.append({"op": make_op(kind, spaces[sidx][0], pobj), "kind": kind, "space": sidx, "pid": pid})
+                    ops.append({"op": make_op(kind, spaces[sidx][0], pobj, prec), "kind": kind, "space": sidx, "pid": pid})
                 elif tag == "set":
                     set_field(pobjs[st[1]], st[2], st[3])
                 elif tag == "clear":
                     api.clear_fmm_cache() if hasattr(api, "clear_fmm_cache") else \
                         __import__("bempp_cl.api.fmm.fmm_assembler", fromlist=["x"]).clear_fmm_cache()
-                elif tag in ("weak", "strong", "eval"):
+                elif tag in ("weak", "strong", "eval", "iface"):
                     o = ops[st[1]]
                     rec = {"history": hi, "step": si, "what": tag, "index": st[1],
-                           "value": pack(observe(tag, o["op"], spaces[o["space"]][0]))}
-                    if tag != "eval":
+                           "value": pack(observe(tag, o["op"], spaces[o["space"]][0], o["kind"]))}
+                    if tag in ("weak", "strong"):
                         w1 = o["op"].weak_form()
                         rec["same_object"] = bool(o["op"].weak_form() is w1)
                 elif tag == "mass":
@@ -154,7 +189,7 @@ def replay(histories):
             except Exception as ex:
                 rec = {"history": hi, "step": si, "what": tag, "index": st[1] if len(st) > 1 else None,
                        "exception": type(ex).__name__, "message": str(ex)[:160]}
-            if rec is not None and tag in ("weak", "strong", "eval", "mass", "op"):
+            if rec is not None and tag in ("weak", "strong", "eval", "mass", "op", "iface", "blocked"):
                 results.append(rec)
     return results
 
@@ -171,6 +206,26 @@ def fresh(specs):
             space = new_space(sp["space"])
             if sp["what"] == "mass":
                 val = observe("mass", None, space)
+            elif sp["what"] == "blocked":
+                blocks = []
+                for part in sp["parts"]:
+                    fm.clear_fmm_cache()
+                    reset_globals()
+                    for f, v in part["params"].items():
+                        set_field(api.GLOBAL_PARAMETERS, f, v)
+                    spc = new_space(part["space"])
+                    blocks.append(observe("weak", make_op(part["kind"], spc, None), spc))
+                n = sum(b.shape[0] for b in blocks)
+                val = np.zeros((n, n), dtype=np.result_type(*[b.dtype for b in blocks]))
+                pos = 0
+                for b in blocks:
+                    val[pos:pos + b.shape[0], pos:pos + b.shape[1]] = b
+                    pos += b.shape[0]
+            elif sp["what"] == "iface":
+                op = make_op(sp["kind"], space, None)
+                if sp["kind"] == "KFmm":
+                    op.weak_form()
+                val = observe("iface", op, space, sp["kind"])
             elif sp["what"] == "strong":
                 # W under the operator's values; M (mass matrix of a brand-new space) under the values that were global
                 # when strong_form was called
